@@ -50,14 +50,16 @@ theorem splitDots_two (a b : String) (ha : a.toList.contains '.' = false)
   rw [this, splitChars_dot _ _ ha, splitChars_nodot _ hb]
   simp
 
-def edStep (st : Fields × List String) (kv : String × Val) : R (Fields × List String) :=
-  if st.2.contains kv.1 then .error .writeErr
+/-- one step of `expandDots`: the state is the accumulated document, the keys stated so far and
+    the proper prefixes recorded so far -/
+def edStep (st : Fields × List String × List String) (kv : String × Val) :
+    R (Fields × List String × List String) :=
+  if st.2.1.contains kv.1 || st.2.2.contains kv.1 then .error .writeErr
   else
-    (expandOne (st.2 ++ [kv.1]) kv.2 (splitDots kv.1) [] st.1).map
-      (fun acc' => (acc', st.2 ++ (List.range (splitDots kv.1).length).map
-        (fun i => joinDots ((splitDots kv.1).take (i + 1)))))
+    (expandOne (st.2.1 ++ [kv.1]) st.2.2 kv.2 (splitDots kv.1) [] st.1).map
+      (fun acc' => (acc', st.2.1 ++ [kv.1], st.2.2 ++ properPrefixes (splitDots kv.1)))
 
-theorem expandDots_eq (doc : Fields) : expandDots doc = (doc.foldlM edStep ([], [])).map (·.1) := rfl
+theorem expandDots_eq (doc : Fields) : expandDots doc = (doc.foldlM edStep ([], [], [])).map (·.1) := rfl
 
 theorem dset_fresh (k : String) (v : Val) (acc : Fields) (h : k ∉ dkeys acc) :
     dset k v acc = acc ++ [(k, v)] := by
@@ -72,17 +74,17 @@ theorem dset_fresh (k : String) (v : Val) (acc : Fields) (h : k ∉ dkeys acc) :
 
 theorem edStep_plain (acc : Fields) (k : String) (v : Val) (hk : k.toList.contains '.' = false)
     (hf : k ∉ dkeys acc) :
-    edStep (acc, dkeys acc) (k, v) = .ok (acc ++ [(k, v)], dkeys (acc ++ [(k, v)])) := by
+    edStep (acc, dkeys acc, []) (k, v) = .ok (acc ++ [(k, v)], dkeys (acc ++ [(k, v)]), []) := by
   unfold edStep
   have hc : (dkeys acc).contains k = false := by simpa using hf
-  simp only [hc, Bool.false_eq_true, if_false, splitDots_nodot k hk, expandOne, Except.map]
+  simp only [hc, List.contains_nil, Bool.or_self, Bool.false_eq_true, if_false,
+    splitDots_nodot k hk, expandOne, Except.map]
   rw [dset_fresh k v acc hf]
-  have hj : joinDots [k] = k := rfl
-  simp [dkeys, hj]
+  simp [dkeys, properPrefixes]
 
 theorem fold_plain (ss : Fields) :
     ∀ acc : Fields, (∀ kv ∈ ss, kv.1.toList.contains '.' = false) → (dkeys (acc ++ ss)).Nodup →
-      ss.foldlM edStep (acc, dkeys acc) = .ok (acc ++ ss, dkeys (acc ++ ss)) := by
+      ss.foldlM edStep (acc, dkeys acc, []) = .ok (acc ++ ss, dkeys (acc ++ ss), []) := by
   induction ss with
   | nil => intro acc _ _; simp [pure, Except.pure]
   | cons kv r ih =>
@@ -111,7 +113,14 @@ theorem expandDots_two (a b : String) (v : Val)
     expandDots [(a ++ "." ++ b, v)] = .ok [(a, .doc [(b, v)])] := by
   rw [expandDots_eq]
   simp only [List.foldlM_cons, List.foldlM_nil, edStep, splitDots_two a b ha hb]
-  simp [expandOne, dget, dset, bind, Except.bind, pure, Except.pure, Except.map]
+  have hj : joinDots [a] = a := rfl
+  have hne : ¬ a = a ++ "." ++ b := by
+    intro e
+    have := congrArg String.length e
+    have h1 : (".":String).length = 1 := rfl
+    simp only [String.length_append, h1] at this
+    omega
+  simp [expandOne, dget, dset, bind, Except.bind, pure, Except.pure, Except.map, hj, hne]
 
 /-! ### `discardOps` -/
 
@@ -257,5 +266,104 @@ theorem seed_plain (ss : Fields) (hk : ss.all (fun kv => !kv.1.toList.contains '
     rw [dget_keep k _ ss [] hd h, discardOps_ops ops ho he]; rfl
   · intro k x h
     rw [dget_keep k _ ss [] hd h, discardOps_eq]; rfl
+
+/-! ### the keys of `dset` and of `keep`; the seed of a filter with plain keys -/
+
+theorem dkeys_dset (k : String) (x : Val) : ∀ fs : Fields,
+    dkeys (dset k x fs) = if k ∈ dkeys fs then dkeys fs else dkeys fs ++ [k]
+  | [] => by simp [dset, dkeys]
+  | (k', v') :: r => by
+    by_cases e : k' = k
+    · subst e; simp [dset, dkeys]
+    · have ih := dkeys_dset k x r
+      simp only [dkeys] at ih ⊢
+      simp only [dset, e, if_false, List.map_cons, ih, List.mem_cons, Ne.symm e, false_or]
+      split <;> simp [*]
+
+theorem nodup_dset (k : String) (x : Val) (fs : Fields) (h : (dkeys fs).Nodup) :
+    (dkeys (dset k x fs)).Nodup := by
+  rw [dkeys_dset]
+  split
+  · exact h
+  · rename_i hk
+    exact List.nodup_append.2 ⟨h, by simp, fun a ha b hb => by
+      simp only [List.mem_singleton] at hb; subst hb; intro e; subst e; exact hk ha⟩
+
+theorem mem_dkeys_dset {k k' : String} {x : Val} {fs : Fields} (h : k' ∈ dkeys (dset k x fs)) :
+    k' = k ∨ k' ∈ dkeys fs := by
+  rw [dkeys_dset] at h
+  split at h
+  · exact Or.inr h
+  · rcases List.mem_append.1 h with h | h
+    · exact Or.inr h
+    · exact Or.inl (by simpa using h)
+
+theorem keep_nodup (ss : Fields) : ∀ acc, (dkeys acc).Nodup → (dkeys (keep ss acc)).Nodup := by
+  induction ss with
+  | nil => intro acc h; exact h
+  | cons p r ih =>
+    obtain ⟨k, v⟩ := p
+    intro acc h
+    simp only [keep]
+    split
+    · exact ih acc h
+    · exact ih _ (nodup_dset k _ acc h)
+
+theorem keep_keys (ss : Fields) : ∀ acc k, k ∈ dkeys (keep ss acc) → k ∈ dkeys acc ∨ k ∈ dkeys ss := by
+  induction ss with
+  | nil => intro acc k h; exact Or.inl h
+  | cons p r ih =>
+    obtain ⟨k0, v⟩ := p
+    intro acc k h
+    simp only [keep] at h
+    simp only [dkeys, List.map_cons, List.mem_cons]
+    split at h
+    · rcases ih acc k h with h | h
+      · exact Or.inl h
+      · exact Or.inr (Or.inr h)
+    · rcases ih _ k h with h | h
+      · rcases mem_dkeys_dset h with rfl | h
+        · exact Or.inr (Or.inl rfl)
+        · exact Or.inl h
+      · exact Or.inr (Or.inr h)
+
+/-- the equality conditions `_discard_operators` leaves of a filter without operator keys -/
+theorem discard_is_keep (ss : Fields) (hp : ∀ kv ∈ ss, kv.1.startsWith "$" = false) :
+    (discardOps (.doc ss)).1 = .doc (keep ss []) := by
+  rw [discardOps]
+  cases ss with
+  | nil => rfl
+  | cons p r =>
+    simp only [List.isEmpty_cons, Bool.false_eq_true, if_false]
+    rw [discardFields_plain _ _ hp]
+
+/-- `_expand_dots` leaves what `_discard_operators` keeps of a filter with undotted keys as it is -/
+theorem expandDots_keep_plain (ss' : Fields) (hk : ∀ kv ∈ ss', kv.1.toList.contains '.' = false) :
+    expandDots (keep ss' []) = .ok (keep ss' []) := by
+  apply expandDots_plain (keep ss' []) _ (keep_nodup ss' [] (by simp [dkeys]))
+  intro kv hm
+  have hmem : kv.1 ∈ dkeys (keep ss' []) := List.mem_map.2 ⟨kv, hm, rfl⟩
+  rcases keep_keys ss' [] kv.1 hmem with h | h
+  · simp [dkeys] at h
+  · obtain ⟨kv', hm', e⟩ := List.mem_map.1 h
+    rw [← e]; exact hk kv' hm'
+
+/-- **the seed of a filter whose keys are plain field names** (no dot, no leading `$`; `ss'` is the
+    filter with the chosen `_id`): what `_discard_operators` leaves, unchanged by `_expand_dots` -/
+theorem seedOfPlain (ss' : Fields)
+    (hk : ∀ kv ∈ ss', kv.1.toList.contains '.' = false ∧ kv.1.startsWith "$" = false) :
+    (match (discardOps (.doc ss')).1 with
+      | .doc eqs => (expandDots eqs).map Val.doc
+      | _ => .error .attrErr) = .ok (.doc (keep ss' [])) := by
+  rw [discard_is_keep ss' (fun kv hm => (hk kv hm).2)]
+  simp only
+  rw [expandDots_keep_plain ss' (fun kv hm => (hk kv hm).1)]
+  rfl
+
+theorem upsertSeed_plain (ss : Fields) (idv : Val)
+    (hk : ∀ kv ∈ dset "_id" idv ss, kv.1.toList.contains '.' = false ∧ kv.1.startsWith "$" = false) :
+    upsertSeed ss idv = .ok (.doc (keep (dset "_id" idv ss) [])) := by
+  unfold upsertSeed
+  exact seedOfPlain _ hk
 
 end MongoModel.Proofs.C13Lemmas
